@@ -150,6 +150,12 @@ func tryQueueReloadRequest(
 			log.Warnln("[Reload] Reload already in progress or handoff pending; ignoring this signal")
 		}
 		restoreRejectedReloadProgress(reloadActive, false)
+		// The request that held the flag may have finished between the failed
+		// CAS above and this busy report; then nobody is left to erase the
+		// report and `dae reload` would refuse to signal from now on.
+		if !reloadPending.Load() {
+			clearRejectedReloadProgress()
+		}
 		return false
 	}
 	beginReloadProxyFailureSuppression()
